@@ -45,7 +45,9 @@ class Gen:
         self.snaps = []            # [name, user, removed] base first
         self.next_name = 1
         self.tok = 0
-        self.hot = sorted(rng.sample(range(self.nb), min(self.nb, rng.choice([2, 3, 4]))))
+        w = min(self.nb, rng.choice([2, 3, 3, 4]))
+        h0 = rng.randrange(self.nb - w + 1)
+        self.hot = list(range(h0, h0 + w))          # a cluster of adjacent hot blocks
         self.bias = bias or {}
         self.ops = []
 
@@ -184,7 +186,7 @@ class Gen:
             return LUN
         acc += 0.02
         if x < acc and self.snaps:
-            return CAND(rng.choice([s[0] for s in self.snaps] + [-1, 0]))
+            return CAND(rng.choice([s[0] for s in self.snaps] + [-1, 66]))
         acc += 0.12
         if x < acc:
             return self.read()
@@ -232,13 +234,60 @@ F1_CASE = mkcase([W(0, 16, 1), SNAP(1, True), W(0, 8, 2), SNAP(2, False), W(0, 1
 S7_CASE = mkcase([W(0, 16, 1), SNAP(1, False), W(8, 8, 2), SNAP(2, False), W(16, 8, 3), RM(1)], K=8, nb=8, punch=False)
 
 
+def c06_history(rng, rev=True):
+    """structured: cluster written, snapshots of both kinds, partial overwrites of the cluster between
+    snapshots, then aligned multi-block writes across the cluster; random other operations in between"""
+    g = Gen(rng, punch=True, rev=rev, bias=dict(snap=0.0, reopen=0.0, resize=0.02, revert=0.03, reload=0.04, multi=0.5))
+    K = g.K
+    lo, hi = g.hot[0], g.hot[-1] + 1
+    ops = []
+
+    def snap(user=None):
+        if len(g.snaps) >= 6:
+            return
+        name = g.next_name
+        g.next_name += 1
+        u = rng.random() < 0.5 if user is None else user
+        g.snaps.append([name, u, False])
+        ops.append(SNAP(name, u))
+
+    def cluster_write():
+        a = rng.randint(lo, hi - 2) if hi - lo > 2 else lo
+        b_ = rng.randint(a + 2, hi)
+        ops.append(W(a * K, (b_ - a) * K, g.newtok()))
+
+    def partial_write():
+        bl = rng.randrange(lo, hi)
+        if rng.random() < 0.7:
+            ops.append(W(bl * K, K, g.newtok()))
+        else:
+            o = rng.randrange(K)
+            ops.append(W(bl * K + o, rng.randint(1, K - o), g.newtok()))
+
+    cluster_write()
+    for _ in range(rng.randint(2, 4)):
+        if rng.random() < 0.8:
+            snap()
+        for _ in range(rng.randint(1, 2)):
+            partial_write()
+        if rng.random() < 0.8:
+            snap()
+        if rng.random() < 0.3:
+            ops.append(g.step())
+        cluster_write()
+    return mkcase(ops, K=K, nb=g.nb0, punch=True, rev=rev)
+
+
 def c06_cases(rng, n):
     """biased to the conjunction C06 names: user snapshot below, several owners, multi-block aligned
     writes, punching on; revert-on-copy of every snapshot after every step"""
     out = []
-    for _ in range(n):
-        out.append(Gen.make(rng, rng.randint(8, 14), punch=True, rev=True,
-                            bias=dict(snap=0.22, user=0.5, multi=0.55, reload=0.05, reopen=0.0, resize=0.02, revert=0.05)))
+    for i in range(n):
+        if i % 3 == 2:
+            out.append(Gen.make(rng, rng.randint(8, 14), punch=True, rev=True,
+                                bias=dict(snap=0.22, user=0.5, multi=0.55, reload=0.05, reopen=0.0, resize=0.02, revert=0.05)))
+        else:
+            out.append(c06_history(rng))
     return out
 
 
@@ -267,7 +316,7 @@ def chain_shape_cases(rng, n):
             if rng.random() < 0.3:
                 ops.append(PREP(s[0]))
                 s[2] = True
-        cp = rng.choice([s[0] for s in snaps] + [-1, 0, 55])
+        cp = rng.choice([s[0] for s in snaps] * 2 + [-1, 55])
         ops.append(CAND(cp))
         # delete admissible members in random order
         order = list(range(1, len(snaps) - 1))
@@ -371,6 +420,12 @@ def case_term(c, out):
 
 # ------------------------------------------------------------------------------------------ running
 
+def variant():
+    """BLOCK_VARIANT=fixed|current overrides Model.code_variant (used to rehearse a fix in a scratch worktree)"""
+    v = os.environ.get("BLOCK_VARIANT")
+    return {"fixed": "true", "current": "false"}.get(v)
+
+
 def run_cases(ctx, binpath, cases, tag="blk", workers=16, shard=24):
     """Run cases on the implementation and through the model.
     Returns (bad, cov, outs): bad = list of dict(case, step, field, c01, c06, c11, c16)."""
@@ -386,8 +441,12 @@ def run_cases(ctx, binpath, cases, tag="blk", workers=16, shard=24):
         if o.get("err"):
             raise RuntimeError("harness error on case %d: %s\n%s" % (c["id"], o["err"], json.dumps(c)))
         terms.append(case_term(c, o))
-    res = vlib.coq_eval_sharded(ctx, tag, IMPORTS, terms,
-                                lambda l: ["bad_cases 0 %s" % l, "coverage %s" % l], shard=shard)
+    v = variant()
+    if v is None:
+        qs = lambda l: ["bad_cases 0 %s" % l, "coverage %s" % l]
+    else:
+        qs = lambda l: ["bad_cases_v %s 0 %s" % (v, l), "coverage_v %s %s" % (v, l)]
+    res = vlib.coq_eval_sharded(ctx, tag, IMPORTS, terms, qs, shard=shard)
     bad = []
     cov = [0] * len(cs)
     for off, vals in res:
@@ -450,9 +509,31 @@ def is_f1_shape(case):
     return False
 
 
-def is_s7_shape(case, step):
-    """the failing step is a raw RemoveDiffDisk"""
-    return 0 <= step < len(case["ops"]) and case["ops"][step]["k"] == "rm"
+def chain_after(ops):
+    """snapshot names base first after the operations (light tracker, valid flows only)"""
+    ch = []
+    for o in ops:
+        k = o["k"]
+        if k == "snap" and o["name"] not in ch and o["name"] != 0:
+            ch.append(o["name"])
+        elif k in ("del", "rm") and o["name"] in ch:
+            i = ch.index(o["name"])
+            if i != len(ch) - 1 and (k == "rm" or i != 0):
+                del ch[i]
+        elif k == "revert" and o["name"] in ch:
+            ch = ch[:ch.index(o["name"]) + 1]
+    return ch
+
+
+def is_s7_shape(case):
+    """the history contains a raw RemoveDiffDisk ('rm') whose target is the base snapshot of the chain
+    at that moment, with at least two snapshots in the chain"""
+    for i, o in enumerate(case["ops"]):
+        if o["k"] == "rm":
+            ch = chain_after(case["ops"][:i])
+            if len(ch) >= 2 and ch[0] == o["name"]:
+                return True
+    return False
 
 
 def corpus(pid):
@@ -489,3 +570,213 @@ def proof_layer(ctx):
             info.update(ok=False, why="Properties/%s.v does not check:\n%s" % (ctx.pid, r["log"][-2500:]))
         return info
     return vlib.proof_layer(ctx)
+
+
+# ------------------------------------------------------------------------------------------ the check body
+
+KNOWN = {
+    "C06": ("f1-hole-wrong-file", is_f1_shape,
+            "fullWriteAt sends the in-loop hole to d.files[val] (the file of the current block) with the previous "
+            "run's offset/length: an aligned multi-block write over blocks with different owners punches a block of a "
+            "user-created snapshot"),
+    "C11": ("s7-raw-remove-base", is_s7_shape,
+            "Replica.RemoveDiffDisk (REST action removedisk) refuses head and latest snapshot but accepts the base "
+            "snapshot: its data is unlinked without a merge and the live volume changes"),
+}
+
+NONTRIVIAL = {
+    "C01": lambda f: bool(f & (4 | 8 | 1)),
+    "C06": lambda f: bool(f & 2),
+    "C11": lambda f: bool(f & (16 | 512 | 1024)),
+    "C16": lambda f: bool(f & (32 | 256)),
+}
+
+RULE = {
+    "C01": "histories of writes/reads (alignment classes x length classes, hot blocks), snapshots, deletions, reverts, reopen/reload "
+           "with and without preload, punching on/off on a real replica.Server; enumerated offset x length pairs on 1-3 file chains; "
+           "a byte-granular stream (K=4096). non-trivial (model-side) = a hole was sent, or an unaligned write read-modified a block "
+           "owned by a lower file, or the full read resolved a block through the FIEMAP probe; distinct by operation list",
+    "C06": "structured histories (cluster written, user/auto snapshots, partial overwrites, aligned multi-block writes across the cluster, "
+           "punching on) + random ones, NewReadOnly image and revert-on-copy of every snapshot after every step. non-trivial = a hole "
+           "was sent while a user-created snapshot existed (SnapIndx >= 1); distinct by operation list",
+    "C11": "random chain shapes (3-9 members, user/removed flags, data spread) with sync.GetDeleteCandidateChain queries, deletions "
+           "(PrepareRemoveDisk -> sparse.FoldFile -> RemoveDiffDisk) in random order, protected targets through del/prep/rm. "
+           "non-trivial = a snapshot was deleted, or a protected member was refused, or a non-empty candidate list; distinct by operation list",
+    "C16": "random histories with Server.Resize (grow / equal / shrink) interleaved with I/O, snapshots, reopen; enumerated grow-write-reopen "
+           "and shrink cases. non-trivial = the volume grew or a shrink was refused; distinct by operation list",
+}
+
+
+def gen_cases(ctx, pid, quick):
+    rng = ctx.rng
+    cases = list(corpus(pid))
+    if pid == "C01":
+        cases += enum_split_cases(8)
+        n = 150 if quick else 4000
+        for i in range(n):
+            cases.append(Gen.make(rng, rng.randint(8, 15), rev=False))
+        for i in range(6 if quick else 60):
+            cases.append(Gen.make(rng, rng.randint(6, 9), K=4096, nb=3, bias=dict(resize=0.0)))
+    elif pid == "C06":
+        cases += c06_cases(rng, 110 if quick else 3000)
+        for i in range(20 if quick else 500):
+            cases.append(Gen.make(rng, rng.randint(8, 14), rev=True, bias=dict(revert=0.12, user=0.6)))
+    elif pid == "C11":
+        cases += [S7_CASE]
+        cases += chain_shape_cases(rng, 60 if quick else 2000)
+        for i in range(40 if quick else 1000):
+            cases.append(Gen.make(rng, rng.randint(10, 16), bias=dict(snap=0.25, **{"del": 0.2})))
+    elif pid == "C16":
+        cases += resize_enum_cases()
+        cases += resize_cases(rng, 110 if quick else 3000)
+    return cases
+
+
+def resize_enum_cases():
+    out = []
+    K = 8
+    for punch in (False, True):
+        for pre in (False, True):
+            ops = [W(0, 4 * K, 1), SNAP(1, True), W(K, K, 2), SNAP(2, False), W(3, 2 * K, 3),
+                   RESIZE(7), R(0, 7 * K), W(4 * K - 3, 2 * K, 4), W(6 * K, K, 5), REOPEN(pre), R(3 * K, 4 * K),
+                   RESIZE(5), RESIZE(7), RESIZE(0), SNAP(3, True), RESIZE(9), W(8 * K + 1, K - 1, 6), RELOAD(pre),
+                   REVERT(1), R(0, 9 * K)]
+            out.append(mkcase(ops, K=K, nb=4, punch=punch, rev=True))
+    return out
+
+
+def main_for(ctx, replay=None):
+    pid = ctx.pid
+    key = pid.lower()
+    proof = proof_layer(ctx)
+    binpath, log = vlib.harness_build("block")
+    if not binpath:
+        print("ERROR: harness does not build against the repository:\n" + log[-3000:])
+        sys.exit(2)
+
+    if replay:
+        obj = json.load(open(replay))
+        case = obj.get("case", obj)
+        bad, cov, outs = run_cases(ctx, binpath, [case], tag="replay")
+        for o, ob in zip(case["ops"], outs[0]["obs"]):
+            print(json.dumps(o), "->", json.dumps({k: v for k, v in ob.items() if v not in ([], None, "")}))
+        print("image table:", json.dumps(outs[0]["tbl"]))
+        mine = [x for x in bad if not x[key] or x["field"] != 0]
+        print("verdict:", mine if mine else "model and implementation agree; oracle %s holds" % key)
+        ctx.cleanup()
+        sys.exit(1 if mine else 0)
+
+    quick = ctx.tier == "quick"
+    cases = gen_cases(ctx, pid, quick)
+    bad, cov, outs = run_cases(ctx, binpath, cases)
+    concrete = [x for x in bad if not x[key]]
+    drift = [x for x in bad if x[key] and x["field"] != 0]
+    known_keys = dict((k, t) for k, t in vlib.load_known(pid))
+    kn = KNOWN.get(pid)
+    n_known = 0
+    reported = 0
+
+    def finalize(case):
+        bb, _, oo = run_cases(ctx, binpath, [case], tag="fin")
+        return bb, oo[0]
+
+    def report_concrete(x, case):
+        small = shrink(ctx, binpath, case, lambda y: not y[key])
+        bb, oo = finalize(small)
+        vlib.violation(ctx, dict(property=pid, kind="oracle %s_oracle fails on the implementation's trace" % key,
+                                 case=small, observed=oo["obs"], image_table=oo["tbl"], model_vs_impl=bb,
+                                 replay_cmd="bin/vcheck %s --replay <this file>" % pid),
+                       suffix="" if reported == 0 else "-%d" % reported)
+
+    first_known_done = False
+    for x in concrete:
+        case = cases[x["case"]]
+        if kn and kn[0] in known_keys and x["field"] == 0 and kn[1](case):
+            # candidate for the recorded finding: same behaviour as the model of the current tree and the
+            # stated shape; the first one is minimised and the predicate re-checked on the minimal history
+            if not first_known_done:
+                small = shrink(ctx, binpath, case, lambda y: not y[key] and y["field"] == 0)
+                if kn[1](small):
+                    first_known_done = True
+                    n_known += 1
+                    vlib.known_finding(ctx, kn[0], kn[2] + "; minimal history: " + json.dumps(small["ops"]))
+                    ctx.notes.append(dict(known_finding=kn[0], minimal_case=small))
+                    continue
+                report_concrete(x, case)
+                reported += 1
+            else:
+                n_known += 1
+            continue
+        if reported < 2:
+            report_concrete(x, case)
+            reported += 1
+
+    if (drift or not proof["ok"]) and reported == 0:
+        # the proof or the correspondence no longer checks: search wider for a history on which the
+        # property itself fails on the implementation
+        extra = []
+        for p2 in ("C01", "C06", "C11", "C16"):
+            extra += gen_cases(ctx, p2, True)
+        bad2, _, _ = run_cases(ctx, binpath, extra, tag="search")
+        conc2 = [y for y in bad2 if not y[key] and not (kn and kn[0] in known_keys and y["field"] == 0 and kn[1](extra[y["case"]]))]
+        if conc2:
+            report_concrete(conc2[0], extra[conc2[0]["case"]])
+        else:
+            if drift:
+                x = drift[0]
+                small = shrink(ctx, binpath, cases[x["case"]], lambda y: y["field"] != 0)
+                bb, oo = finalize(small)
+                what = dict(broken="correspondence Block.Corr.check_case (model coq/theories/Block/Model.v, variant %s, vs replica.Server)" % (variant() or "code_variant"),
+                            first_difference=dict(step=bb[0]["step"] if bb else None,
+                                                  field=FIELD.get(bb[0]["field"]) if bb else None),
+                            case=small, observed=oo["obs"], image_table=oo["tbl"])
+            else:
+                what = dict(broken="proof layer", why=proof["why"])
+            what.update(property=pid, searched=len(cases) + len(extra))
+            vlib.violation(ctx, what, nofail=True)
+
+    seen = {}
+    for c, f in zip(cases, cov):
+        seen[json.dumps(c["ops"])] = f
+    nontriv = sum(1 for f in seen.values() if NONTRIVIAL[pid](f))
+    kinds = {}
+    align = dict(aligned=0, unaligned_single_block=0, unaligned_crossing=0)
+    chainlen = {}
+    for c, o in zip(cases, [outs[i] for i in range(len(cases))]):
+        K = c["K"]
+        for op in c["ops"]:
+            kinds[op["k"]] = kinds.get(op["k"], 0) + 1
+            if op["k"] in ("w", "r"):
+                if op["off"] % K == 0 and (op["off"] + op["len"]) % K == 0:
+                    align["aligned"] += 1
+                elif op["off"] // K == (op["off"] + op["len"] - 1) // K:
+                    align["unaligned_single_block"] += 1
+                else:
+                    align["unaligned_crossing"] += 1
+        for ob in o["obs"]:
+            l = len(ob["chain"])
+            chainlen[l] = chainlen.get(l, 0) + 1
+    extra = dict(evaluations=len(cases), distinct_nontrivial=nontriv, rule=RULE[pid],
+                 traces_validated_against_impl=len(cases), operations=sum(len(c["ops"]) for c in cases),
+                 model_impl_differences=len([x for x in bad if x["field"] != 0]),
+                 oracle_failures=len(concrete), oracle_failures_matching_known_finding=n_known,
+                 model_variant=variant() or "Model.code_variant",
+                 input_distribution=dict(operations=kinds, io_alignment=align,
+                                         chain_length_at_observation=chainlen,
+                                         granularity={str(k): sum(1 for c in cases if c["K"] == k) for k in sorted(set(c["K"] for c in cases))},
+                                         punching_initially_on=sum(1 for c in cases if c["punch"])),
+                 coverage_flags=cov_summary(cov), theorems=proof.get("theorems", []), exhaustive=False)
+    zero = [k for k, v in extra["coverage_flags"].items() if v == 0]
+    if zero:
+        ctx.notes.append("coverage predicates with zero hits in this run: " + ", ".join(zero))
+    samples = []
+    for i in (0, len(cases) // 2, len(cases) - 1):
+        samples.append(dict(case=cases[i], last_observation=outs[i]["obs"][-1] if outs[i]["obs"] else None))
+    vlib.write_evidence(ctx, proof, extra, [
+        "files are maps block -> content; ext4 semantics assumed: an extent exists iff the block was written and not punched since (4 KiB granularity), FIEMAP reports exactly those",
+        "a queued hole is applied (or dropped) before the next chain-changing operation; the harness quiesces the production CreateHoles goroutine after every operation (all holes applied)",
+        "the read-modify-write critical section (rmLock) and each Server call are atomic; no concurrent I/O",
+        "snapshot names are fresh, reverts name a chain member, I/O stays inside [0, size) (the controller's half of C01/C16 is in the Ctl model)",
+        "theorems are proved for the repaired fullWriteAt (variant fx = true); the implementation is compared with variant Model.code_variant",
+    ], samples)
+    vlib.finish(ctx)
